@@ -60,8 +60,10 @@ def _monitored_md(state, cfg, containers=False):
         mon = Monitor(R.REGISTRY[q], R.SPECFUNS)
         real = rule.fn
 
-        def wrapper(st, startLine, endLine, silent, _mon=mon, _real=real, _q=q):
-            outcome, val, failed, pre_ok = _mon.call(_real, {"state": st, "startLine": startLine, "endLine": endLine, "silent": silent})
+        pnames = list(R.REGISTRY[q].params)[:4]
+
+        def wrapper(st, startLine, endLine, silent, _mon=mon, _real=real, _q=q, _pn=pnames):
+            outcome, val, failed, pre_ok = _mon.call(_real, dict(zip(_pn, (st, startLine, endLine, silent))))
             for kind, label in failed:
                 log.append((_q, kind, label, startLine, endLine, silent))
             if outcome == "precondition-false":
